@@ -380,6 +380,36 @@ class S8(Scenario):
         return [_render_tpl(t, ctx), _render_tpl(t, ctx)]
 
 
+class S9(Scenario):
+    """one Template object shared between a component (nested in an `{% extends %}` block, so its render must NOT isolate the
+    render context) in one thread and a stock `{% include %}` of the same object (must isolate: `{% cycle %}` restarts) in
+    the other: whatever tells the patched `Template.render()` which of the two it is must not live on the shared Template"""
+    name = "S9_shared_template_component_vs_include"
+    bound_quick = 1
+    bound_thorough = 2
+    extra_funcs = ("_template_render", "_with_template_nested_flag", "_prepare_template")
+    extra_attrs = ("_djc_is_component_nested", "_djc_nested_template")
+
+    def __init__(self):
+        from django.template import Template
+
+        self.row = row = Template("{% cycle 'a' 'b' %}")
+        _mk("s9row", None, extra={"get_template": lambda self, context: row})
+        boot.LOCMEM_TEMPLATES["s9_base.html"] = "[{% block b %}{% endblock %}]"
+        self.ta = Template("{% extends 's9_base.html' %}{% block b %}{% component 's9row' / %}{% component 's9row' / %}{% endblock %}")
+        self.tb = Template("{% for i in '123' %}{% include t %}{% endfor %}")
+
+    def setup(self):
+        self.reset_common()
+        return [_render_tpl(self.ta, {}), _render_tpl(self.tb, {"t": self.row})]
+
+    def after(self):
+        out = _render_tpl(self.tb, {"t": self.row})()
+        leftovers = [k for k in vars(self.row) if k.startswith("_djc")]
+        return residue_problems() + ([f"a later stock render of the shared template, alone, gives {out!r} instead of 'aaa'"] if out != "aaa" else []) + (
+            [f"attributes left on the shared Template: {leftovers}"] if leftovers else [])
+
+
 class S5(Scenario):
     """first use of the lazily created caches and of the component-tag subclass registry"""
     name = "S5_lazy_singletons"
@@ -511,7 +541,7 @@ def _norm_doc(html):
 
 
 # the cold-start scenarios come first: their executions are forked from this process, which must not have rendered anything yet
-SCENARIOS = {c.name: c for c in (L1a, L1b, S1, S1c, S2, S3, S3b, S3c, S4, S4b, S5, S6, S7, S8)}
+SCENARIOS = {c.name: c for c in (L1a, L1b, S1, S1c, S2, S3, S3b, S3c, S4, S4b, S5, S6, S7, S8, S9)}
 _SC = {}
 _SET = {}
 
